@@ -6,3 +6,32 @@ package otelstorage
 
 //@ func NewTimestampFromTime
 //@   inline
+
+// ---- C20: every key is mapped to a valid LogQL label name
+
+//@ scope attrs.go
+//@ ghost func builderContent(b *strings.Builder) string
+
+//@ spec func identByte(c byte) bool {
+//@   return c == '_' || (c >= '0' && c <= '9') || (c >= 'a' && c <= 'z') || (c >= 'A' && c <= 'Z')
+//@ }
+//@ spec func digitByte(c byte) bool { return c >= '0' && c <= '9' }
+//@ spec func validLabel(s string) bool {
+//@   return forall(0, len(s), func(j int) bool { return identByte(s[j]) }) && (len(s) == 0 || !digitByte(s[0]))
+//@ }
+
+//@ func KeyToLabel
+//@   pure
+//@   ensures[only-label-characters] forall(0, len(ret0), func(j int) bool { return identByte(ret0[j]) })
+//@   ensures[no-leading-digit]      len(ret0) > 0 ==> !digitByte(ret0[0])
+//@   ensures[valid-names-unchanged] validLabel(key) ==> ret0 == key
+//@   loop 0 invariant builderContent(&label) == "" && key == old(key)
+//@   loop 0 invariant forall(0, rangepos(), func(j int) bool { return identByte(key[j]) }) && (rangepos() > 0 ==> !digitByte(key[0]))
+//@   loop 1 modifies label.*
+//@   loop 1 invariant forall(0, len(builderContent(&label)), func(j int) bool { return identByte(builderContent(&label)[j]) })
+//@   loop 1 invariant len(builderContent(&label)) > 0 ==> !digitByte(builderContent(&label)[0])
+//@   loop 1 invariant len(builderContent(&label)) == 0 ==> rangepos() == 0 && len(key) > 0 && !identByte(key[0])
+
+//@ ghost func anyKey(i int) string
+//@ lemma[C20.idempotent] KeyToLabel(KeyToLabel(anyKey(0))) == KeyToLabel(anyKey(0))
+//@ lemma[C20.result-is-a-valid-label-or-empty] validLabel(KeyToLabel(anyKey(0)))
